@@ -552,6 +552,36 @@ impl TransactionBuilder {
                                 &mut rng,
                                 false,
                             )?;
+                            // what no single output asks for (tokens to be burned) is still needed in total
+                            let by = |value: &Value| {
+                                value
+                                    .multiasset
+                                    .as_ref()
+                                    .and_then(|ma| ma.get(policy_id))
+                                    .and_then(|assets| assets.get(asset_name))
+                                    .unwrap_or(BigNum::zero())
+                            };
+                            while by(&input_total) < by(&output_total) {
+                                let candidates = available_indices
+                                    .iter()
+                                    .filter(|i| !by(&available_inputs[**i].output.amount).is_zero())
+                                    .cloned()
+                                    .collect::<Vec<usize>>();
+                                if candidates.is_empty() {
+                                    return Err(JsError::from_str("UTxO Balance Insufficient"));
+                                }
+                                let i = candidates[rng.gen_range(0..candidates.len())];
+                                available_indices.remove(&i);
+                                let input = &available_inputs[i];
+                                let input_fee = self.fee_for_input(
+                                    &input.output.address,
+                                    &input.input,
+                                    &input.output.amount,
+                                )?;
+                                self.inputs.add_regular_utxo(&input)?;
+                                input_total = input_total.checked_add(&input.output.amount)?;
+                                output_total = output_total.checked_add(&Value::new(&input_fee))?;
+                            }
                         }
                     }
                 }
